@@ -978,6 +978,68 @@ pub fn radix_e2e(ctx: &GenCtx, rng: &mut Rng, run: u64) -> Option<Plan> {
     Some(plan)
 }
 
+/// tall: keys with a tree of height 15 (top, or below a cheap top tree): one keygen with an ample fresh aux
+/// buffer, signatures with and without it at boundary counters, lifetime, delivery through every entry point.
+/// Heights above 10 change table lookups (height, path length, aux level selection) that the cheaper profiles
+/// never reach; 20 and 25 stay infeasible end to end.
+pub fn tall(ctx: &GenCtx, rng: &mut Rng, run: u64) -> Option<Plan> {
+    let low = cheap_h();
+    let mut shapes: Vec<(HashId, Vec<(u32, u32)>)> = vec![(HashId::Sha256_128, vec![(4, 15)]), (HashId::Sha256_128, vec![(4, low), (4, 15)])];
+    if !ctx.quick {
+        shapes.extend([
+            (HashId::Sha256_256, vec![(8, 15)]),
+            (HashId::Sha256_192, vec![(4, low), (4, 15)]),
+            (HashId::Sha256_128, vec![(4, 15), (2, low)]),
+            (HashId::Shake256_128, vec![(4, 15)]),
+            (HashId::Sha256_128, vec![(2, 15), (4, 5)]),
+            (HashId::Sha256_192, vec![(4, 15), (4, 15)]),
+            (HashId::Sha256_128, vec![(1, 15)]),
+        ]);
+    }
+    let (hash, params) = shapes.get(run as usize)?.clone();
+    if !in_build_limits(&params) {
+        return None;
+    }
+    let hts: Vec<u32> = params.iter().map(|p| p.1).collect();
+    let n = hash.n();
+    let mut plan = empty_plan();
+    plan.keys.push(KeyCfg { hash, params: params.clone(), seed: rng.bytes(n) });
+    plan.procs.push(0);
+    let ample = aux_full_len(hash, params[0].1.min(12)) + 100;
+    plan.ops.push(Op::Keygen { key: 0, aux: Some((0, ample, AuxFill::Zero)) });
+    plan.ops.push(Op::Lifetime { proc: 0 });
+    let bc = boundary_counters(&hts);
+    let picks = if ctx.quick { 1 } else { 3 };
+    for i in 0..picks {
+        // a leaf index with bits above 2^10 set on the tall level, and boundary counters
+        let c = if i == 0 { (1u64 << hts.iter().sum::<u32>()) - 1 - rng.below(3) } else { *rng.pick(&bc) };
+        plan.ops.push(Op::Inject { key: 0, counter: c });
+        plan.ops.push(Op::Lifetime { proc: 0 });
+        plan.ops.push(Op::Sign { proc: 0, msg: msg(rng, n), api: Api::Fn, cb: Cb::Accept, aux: Some(0) });
+        plan.ops.push(Op::Send { key: 0, release: i as usize });
+    }
+    plan.ops.push(Op::Inject { key: 0, counter: 1 + rng.below(1 << 14) });
+    plan.ops.push(Op::Sign { proc: 0, msg: msg(rng, n), api: Api::ObjAux, cb: Cb::Accept, aux: Some(0) });
+    plan.ops.push(Op::Send { key: 0, release: picks as usize });
+    for e in 0..=picks as usize {
+        for entry in ALL_ENTRIES {
+            plan.ops.push(Op::Deliver { env: e, fault: WireFault::None, entry });
+        }
+    }
+    // a second key generation into the buffer the first one filled, and into a smaller fresh one
+    plan.ops.push(Op::Keygen { key: 0, aux: Some((0, 0, AuxFill::Existing)) });
+    plan.ops.push(Op::Keygen { key: 0, aux: Some((1, 4 + n + (n << 1) + (n << 3) + 7, AuxFill::Zero)) });
+    plan.note = format!("tall: {}", crate::exec::shape_string(hash, &params));
+    Some(plan)
+}
+pub fn tall_space(quick: bool) -> u64 {
+    if quick {
+        2
+    } else {
+        9
+    }
+}
+
 /// handover: library and hash-sigs alternate on one key file (SHA-256/32, heights >= 5).
 pub fn handover(ctx: &GenCtx, rng: &mut Rng, _run: u64) -> Plan {
     let mut plan = empty_plan();
